@@ -175,8 +175,10 @@ PROPS = {
         "explanation": "The ordering clause is a property of one function's control flow and is proved with ghost state; "
                        "the data-level clauses are compared with a reference implementation (bounded).",
         "assumptions": A_COMMON,
-        "level_text": "Proof of the evaluate-once / deletions-before-insertions clause for all updates; all data-level "
-                      "clauses bounded (44 operations + pairs x 4 datasets x 3 switch settings); 'other'.",
+        "level_text": "Proof of the evaluate-once / deletions-before-insertions clause and of the addressing clauses (which "
+                      "graphs INSERT DATA, DELETE DATA, CLEAR, ADD, COPY, MOVE write to; 'outside GRAPH' = the real default "
+                      "graph) for all updates; what the templates contain and the set effect on triples are bounded (50 "
+                      "operations + pairs x 4 datasets x 3 switch settings); 'other'.",
         "level_note": "Trusted: evalPart/_fillTemplate/get_context as effect-free external functions; set effect of "
                       "Graph += / -= from C01.",
     },
